@@ -13,6 +13,7 @@ NOTE_S = "Synthetic headers without proof of work (repository's own difficulty s
 def s_text(what):
     return "Seeded search over tens of thousands of simulated histories per second (forks of forks, sibling/cousin overtakes by work, reorder/duplicate/drop from several peers, Clean/Save/restart with real and small prune depth). " + what + " Failures are minimised at operation level and replay exactly from the recorded script."
 
+NOTE_G = "Goroutine order between two quiescent points is the Go runtime's (workers run with GOMAXPROCS=1); every oracle is a safety invariant over recorded calls/messages or a bounded-liveness check in simulated time, independent of that order. Peers are scripted state machines; the wall clock is synctest's fake clock."
 checks = {
  # id: (engine, category, text, note, technique)
  "C01": ("S", "exploration", s_text("After every event the reported tip, work, height and the hash/header at every height are compared with an independent reference block tree; an error return is checked for having left a heavier accepted chain unreported."), NOTE_S, S),
@@ -26,6 +27,9 @@ checks = {
  "C18": ("S", "exploration", s_text("Headers carry real merkle roots over 1-9 generated txids; standard proofs (with header / block hash only) for blocks on the best chain, side branches and pruned history must verify with the reference height and flag at every point of the history, and each single-element corruption must fail."), NOTE_S + " Proof arithmetic itself is dependency code, cross-checked against an independent merkle implementation.", S),
  "C19": ("S", "exploration", s_text("GetLocatorHashes(max) is checked for membership, newest-first order from the tip's parent, no duplicates and the maximum; a simulated conformant peer on every root-to-leaf path of the reference tree answers the locator and its first header must connect."), NOTE_S, S),
  "C20": ("S", "fault_enumeration", "Seeded operation sequences over the real peer address book inside a synctest bubble (fake clock) are compared with an ordered-list reference after every call; for sampled states EVERY prefix of the saved file (every cut near every record boundary for files over 1500 bytes) and mutated files (negative/huge count and address length, random bytes, flipped bytes, version) are loaded into fresh repositories: no crash, and exactly the peers fully written before the cut are kept. Exhaustive over cut points within each sampled file, sampled over histories.", "One caller at a time (each method holds the lock from entry to exit; concurrent callers are an order of calls). Worker processes run under RLIMIT_AS 4 GiB so that a 16 GiB allocation sized from a corrupt count aborts deterministically. Record boundaries obtained black-box from saved file lengths.", S + "; file-prefix enumeration"),
+ "C13": ("G", "exploration", "A real BitcoinNode (full / verify-only, with / without transaction manager) runs on its own goroutines inside a synctest bubble over a simulated connection; a scripted peer sends tape-chosen well-formed messages at every stage before verification (before version, between version and verack, verack first, no verack, after handshake) in tape-chosen fragments and delays, then one of 7 verification replies; recording wrappers around the real header repository, peer book and tx processor read Verified() at call time. 1 run in 5 puts 1-3 unverified nodes under a real NodeManager (verif hook) and requests headers, txs and a block. Tens of thousands of runs per second; sampling, not proof.", NOTE_G, G),
+ "C14": ("G", "exploration", "A verified real node (tx manager present/absent, block requested/not) receives 1-12 tape-generated well-formed messages over the whole command set (handled/unhandled, classic/extended tx, block and unknown, empty and full lists, requested/unrequested blocks, payloads to 70 kB quick / 4 MB thorough) fragmented and delayed by the tape, then a ping with a fresh nonce: pong within 10 simulated minutes, or after a may-disconnect message pong or orderly close, never payload parsed as a header.", NOTE_G, G),
+ "C15": ("G", "exploration", "A real node before handshake / during verification / ready receives 1-4 tape-generated hostile byte strings (noise, corrupt checksum/length/count/varint, truncation, extended lengths 2^48..2^64-1, every class of bits, hostile tx encodings, flipped bytes), then the peer closes. The run executes in a worker process whose death is attributed to the run it announced, re-run alone, minimised at message level and replayed from the recorded bytes. Run must return within 5 simulated minutes, the header repository must be intact and a second well-behaved connection must verify and answer a ping. Production repository configuration.", NOTE_G + " Declared lengths are either small or >= 2^48 so the outcome never depends on this machine's memory. Three allocation sites inside the dependency pkg/wire are known findings (KF19-KF21) and are excluded from generation; their witnesses run on every check.", G + "; process-level crash observation with per-run attribution"),
 }
 NA = {}
 ALL = ["C%02d" % i for i in range(1, 21)]
